@@ -176,7 +176,7 @@ def tgsw_decrypt_by_interpretation(chk, v, gd):
         if len(path) == 4 and path[1] == "bloc_sample":
             return path[2] * lv_ + path[3]
         raise concrete.NotEvaluable("row %s" % (path,))
-    for kv, lv_, nv in _it.product((1, 2), (1, 2, 3), (1, 2)):
+    for kv, lv_, nv in _it.product((1, 2), (1, 2, 3), (1, 2, 5)):
         for Z in _it.chain.from_iterable(_it.combinations(range(lv_), r) for r in range(lv_ + 1)):
             st = concrete.PolyState()
             log = []
@@ -695,7 +695,7 @@ def run(chk):
         gd = v.fn("tGswSymDecrypt")
         wit = tgsw_decrypt_by_interpretation(chk, v, gd)
         chk.require(wit is None, "R3", "tGswSymDecrypt reads block k, rows i < l, recomposes with the decomposition of 1/Msize and rounds with Msize",
-                    where=gd.where, ok="interpreted for k in {1,2}, l in 1..3, N in {1,2} and every pattern of zero digits: result[j] = "
+                    where=gd.where, ok="interpreted for k in {1,2}, l in 1..3, N in {1,2,5} and every pattern of zero digits: result[j] = "
                     "modSwitchFromTorus32(sum_i digit_i(1/Msize) * phase(bloc_sample[k][i])[j], Msize)", bad=wit or "", variant=vn)
         # b aliases component k (constructor)
         ctor = [c for c in v.defined() if c.get("record") == "TLweSample" and c.get("kind") == "ctor" and not c.get("implicit")]
